@@ -33,6 +33,38 @@ func casRace(c *Ctx, prop string) {
 
 // outOrder explores the completion orders of a target's concurrent output
 // writers in the real Registry.WriteOutputs; signatures are re-labelled for prop.
+// loadQuiescence: Registry.LoadOutputs with one blob missing under every schedule with a bounded number
+// of deviations; when it returns, none of its loaders may still be running.
+func loadQuiescence(c *Ctx, prop string, only ...string) {
+	ov := schedOverlay(c, "sched-outorder", nil, []string{"outorder"})
+	if ov == nil {
+		return
+	}
+	bin, err := vc.BuildHarnessTest("outorder", ov, "outorder", false)
+	if err != nil {
+		c.R.BrokenCheck("%v", err)
+		return
+	}
+	bound, budget := "2", "20"
+	if c.Thorough {
+		bound, budget = "4", "200"
+	}
+	sub := vc.NewReport(prop, c.Tier)
+	vc.RunHarness(sub, vc.HarnessRun{Bin: bin, Env: map[string]string{"VERIF_TIER": c.Tier, "VERIF_BOUND": bound, "VERIF_BUDGET_S": budget, "GOMAXPROCS": "1", "VERIF_OUTORDER_MODE": "load"}, Tag: "loadquiescence"})
+	sub.Relabel(func(sig string) string { return prop + strings.TrimPrefix(sig, "LOAD") })
+	c.R.Merge(sub, func(sig string) bool {
+		if !strings.HasPrefix(sig, prop+":") {
+			return false
+		}
+		for _, o := range only {
+			if strings.Contains(sig, o) {
+				return true
+			}
+		}
+		return len(only) == 0
+	})
+}
+
 func outOrder(c *Ctx, prop string) {
 	ov := schedOverlay(c, "sched-outorder", nil, []string{"outorder"})
 	if ov == nil {
